@@ -71,6 +71,14 @@ def run(ctx):
             w = rng.randint(1, 4)                   # the width of THIS parent's sub-lists
             return [nest(d - 1, w) for _ in range(width)]
         cases.append({"kind": "ctor", "depth": depth, "nest": nest(depth, rng.randint(1, 3))})
+        if rng.random() < 0.5:
+            # the empty constructor, populated in two or three phases with growing coordinates and shape queries in between
+            hi = 2
+            phases = []
+            for _ in range(rng.randint(2, 3)):
+                phases.append([[rng.randint(0, hi) for _ in range(depth)] for _ in range(rng.randint(1, 3))])
+                hi += rng.randint(1, 4)
+            cases.append({"kind": "ctor", "depth": depth, "nest": [], "how": "empty", "phases": phases})
     part = family.run_family(ctx, "C14", cases, "harness.exec_attrs", "AttrsTrace.tla", "AttrsTrace.cfg",
                              op_of=lambda c, lg, st: c.get("op", c["kind"]) + (":" + c["style"] if "style" in c else "") + (":" + c["splitkind"] if "splitkind" in c else ""),
                              where_of=lambda c, lg, st: c["kind"] + (":" + classify_tree(c["tree"]) if c["kind"] == "transform" else "") + (":rel" if c.get("rel") else "")
